@@ -71,6 +71,24 @@ def run_property(prop: str, repo: str, tier: str, only=None, evidence_dir=None, 
             extra["selftest"] = runner.run_for(prop, repo)
         except Exception as e:
             extra["selftest"] = {"error": f"{type(e).__name__}: {e}"}
+        try:
+            # mechanical sweeps over the property's anchor files: behaviour-preserving edits (false-alarm hunting) and
+            # single-point mutations (blind-spot measurement); both judge scratch copies, neither changes the verdict
+            from selftest import twingen, mutgen
+            files = [f for f in twingen.all_props() if f["id"] == prop][0]["anchors"]["files"]
+            res = twingen.sweep(files, repo)
+            by = {}
+            for r_ in res:
+                k = by.setdefault(r_["kind"], {"variants": 0, "false_alarms": 0, "undecided": 0})
+                k["variants"] += 1
+                k["false_alarms"] += bool(r_["alarms"])
+                k["undecided"] += bool(r_["undecided"]) and not r_["alarms"]
+            extra["equivalence_sweep"] = {"variants": len(res), "false_alarms": sum(1 for r_ in res if r_["alarms"]), "by_transformation": by,
+                                          "alarm_list": [{k_: r_[k_] for k_ in ("file", "function", "line", "kind", "edit", "alarms")} for r_ in res if r_["alarms"]][:20]}
+            ms = mutgen.sweep(prop, repo)
+            extra["mutation_sweep"] = {k_: ms.get(k_) for k_ in ("generated", "killed", "undecided", "survived", "survivors_triaged_equivalent_or_outside_property", "survivors_open")}
+        except Exception as e:
+            extra["sweeps"] = {"error": f"{type(e).__name__}: {e}"}
     wall = time.time() - t0
     viol = [r for r in results if r.status == VIOLATED and not r.known]
     und = [r for r in results if r.status == UNDECIDED]
